@@ -210,6 +210,90 @@ def only_error_severity(rel):
     return all(u == "Error" for u in uses)
 
 
+
+def enclosing_fn(src, pos):
+    """(name, params, body text, body start) of the innermost `fn` whose body contains pos."""
+    best = None
+    for m in re.finditer(r"\bfn\s+(\w+)\s*(?:<[^>]*>)?\s*\(", src):
+        if m.start() > pos:
+            break
+        # parameter list up to the matching parenthesis
+        i, depth = m.end(), 1
+        while i < len(src) and depth:
+            depth += {"(": 1, ")": -1}.get(src[i], 0)
+            i += 1
+        params = src[m.end():i - 1]
+        j = src.find("{", i)
+        k = src.find(";", i)
+        if j < 0 or (0 <= k < j):
+            continue
+        b, depth = j + 1, 1
+        while b < len(src) and depth:
+            depth += {"{": 1, "}": -1}.get(src[b], 0)
+            b += 1
+        if j < pos < b:
+            best = (m.group(1), params, src[j + 1:b - 1], j + 1)
+    return best
+
+
+def mark_is_own_offset(body_before, var, arena_field):
+    """`var` was read from self.<arena_field>.offset() earlier in this function: directly, or
+    through `let w = if self.has_frame_arena() { Some(self.frame.offset()) } else { None }` and
+    `if let Some(var) = w`."""
+    if re.search(r"let\s+%s\s*=\s*self\.%s\.offset\(\)\s*;" % (var, arena_field), body_before):
+        return True
+    m = None
+    for m in re.finditer(r"if\s+let\s+Some\(\s*%s\s*\)\s*=\s*(\w+)" % var, body_before):
+        pass
+    if m:
+        w = m.group(1)
+        if re.search(r"let\s+%s\s*=\s*if\s+self\.has_frame_arena\(\)\s*\{\s*Some\(\s*self\.%s\.offset\(\)\s*\)\s*\}\s*else\s*\{\s*None\s*\}\s*;"
+                     % (w, arena_field), body_before):
+            return True
+    return False
+
+
+def reset_sites():
+    """Every `.reset(x)` outside src/arena: which arena field, and whether x is an offset the
+    same function (or its only callers) read from that same arena."""
+    sites = []
+    root = os.path.join(REPO, "src")
+    for dp, _, fs in os.walk(root):
+        if os.path.relpath(dp, root).split(os.sep)[0] in ("arena",):
+            continue
+        for fn in sorted(fs):
+            if not fn.endswith(".rs"):
+                continue
+            rel = os.path.relpath(os.path.join(dp, fn), REPO)
+            src = strip(read(rel))
+            for m in re.finditer(r"(\w+(?:\.\w+)*)\.reset\(\s*([^)]*)\)", src):
+                recv, arg = m.group(1), m.group(2).strip()
+                mm = re.fullmatch(r"self\.(frame|arena)", recv)
+                f = enclosing_fn(src, m.start())
+                if not mm or not re.fullmatch(r"\w+", arg) or not f:
+                    # not a shape this reader understands: recorded as "not known to target its own
+                    # mark", which only the C14 proof obligation (Example in Properties/C14.v) rejects
+                    sites.append(("frame", "%s:%s" % (rel, recv), False))
+                    continue
+                field = mm.group(1)
+                name, params, body, bstart = f
+                before = body[:m.start() - bstart]
+                ok = mark_is_own_offset(before, arg, field)
+                if not ok and re.search(r"\b%s\s*:\s*usize" % arg, params):
+                    # a parameter: every caller must pass an offset it read from the same arena
+                    names = [p.split(":")[0].strip() for p in params.split(",")]
+                    pidx = names.index(arg) - (1 if "self" in names[0] else 0)
+                    calls = [c for c in re.finditer(r"self\.%s\(([^()]*)\)" % name, src)]
+                    ok = bool(calls)
+                    for c in calls:
+                        a = [x.strip() for x in c.group(1).split(",")]
+                        cf = enclosing_fn(src, c.start())
+                        if not cf or pidx >= len(a) or not mark_is_own_offset(cf[2][:c.start() - cf[3]], a[pidx], field):
+                            ok = False
+                sites.append((field, name, ok))
+    return sites
+
+
 def scratch_facts():
     s = strip(read("src/arena/scratch.rs"))
     _, init = fn_body(s, "init")
@@ -318,6 +402,14 @@ def generate():
     A("Definition wasm_script : list wev :=\n  [%s]." % ";\n   ".join(wev))
     A("")
 
+    sites = reset_sites()
+    A("(* src/runtime.rs: the only arena resets outside src/arena.  true = frame arena, false = persistent")
+    A("   arena; the flag says the target is an offset that the same function (or each of its callers)")
+    A("   read from `.offset()` of that same arena — the shape the discipline `disc` relies on. *)")
+    A("Definition runtime_reset_sites : list (bool * bool)%%type :=\n  [%s]." % "; ".join(
+        "(%s, %s)" % (str(f == "frame").lower(), str(ok).lower()) for f, _, ok in sites))
+    A("(* in: %s *)" % ", ".join("%s/%s" % (n, f) for f, n, _ in sites))
+    A("")
     A("(* src/syntax/parser.rs, scanner.rs: every diagnostic they emit is Severity::Error *)")
     ok = only_error_severity("src/syntax/parser.rs") and only_error_severity("src/syntax/scanner.rs")
     A("Definition syntax_emits_only_errors : bool := %s." % str(ok).lower())
